@@ -128,9 +128,11 @@ func (sc *SearchCache) CleanupExpired() int {
 // generateCacheKey creates a unique cache key for the query and options
 func (sc *SearchCache) generateCacheKey(query string, options SearchOptions) string {
 	// Normalize query for consistent caching
-	// Only letter case is folded: surrounding blanks are part of what the typo
-	// fallback matches, so blank-padded variants may not share an entry.
-	normalizedQuery := strings.ToLower(query)
+	// Only the case of ASCII letters is folded: surrounding blanks are part of what the
+	// typo fallback matches, and a Unicode lower-casing would merge queries the engine
+	// tells apart (U+212A KELVIN SIGN and U+0130 lower-case to the ASCII letters k and i,
+	// while the engine drops non-ASCII runes before it folds case).
+	normalizedQuery := foldASCIICase(query)
 
 	// Create a deterministic key that includes all relevant options
 	keyData := struct {
@@ -153,6 +155,22 @@ func (sc *SearchCache) generateCacheKey(query string, options SearchOptions) str
 	// Generate SHA256 hash for compact key (more secure than MD5)
 	hash := sha256.Sum256(jsonData)
 	return fmt.Sprintf("%s%x", sc.keyPrefix, hash)
+}
+
+// foldASCIICase lower-cases the ASCII letters of s and leaves every other byte as it is.
+func foldASCIICase(s string) string {
+	for i := 0; i < len(s); i++ {
+		if c := s[i]; c >= 'A' && c <= 'Z' {
+			b := []byte(s)
+			for j := i; j < len(b); j++ {
+				if c := b[j]; c >= 'A' && c <= 'Z' {
+					b[j] = c + ('a' - 'A')
+				}
+			}
+			return string(b)
+		}
+	}
+	return s
 }
 
 // Manager manages multiple cache instances
